@@ -42,7 +42,21 @@ def primitive_roots(ctx):
                 if t in ("i8", "i16", "i32", "i64", "u8", "u16", "u32", "u64") and modname == "kio.schema.types":
                     return "int"
             return None
+        def is_value_type(name, seen=()):
+            """A primitive value type derives (possibly through other classes of the module) from Phantom / Interval or from a builtin;
+            a private helper class without such a base (a callable predicate, a context manager) is not a value type."""
+            if name in seen or name not in classes:
+                return False
+            for b in classes[name].bases:
+                t = ast.unparse(b).split("[")[0]
+                if t in ("Phantom", "Interval") or t in IMMUTABLE_ROOTS or t in ("i8", "i16", "i32", "i64", "u8", "u16", "u32", "u64"):
+                    return True
+                if t in classes and is_value_type(t, seen + (name,)):
+                    return True
+            return False
         for n, c in classes.items():
+            if not is_value_type(n) and n not in ("Phantom", "Interval"):
+                continue
             mutators = [s.name for s in c.body if isinstance(s, ast.FunctionDef) and s.name in ("__setattr__", "__delattr__", "__eq__", "__hash__")]
             out[f"{modname}:{n}"] = (root(n), mutators, c.lineno)
     return out
